@@ -225,11 +225,18 @@ def decoder_clause(world, a):
     """the decoder pushes an option only for a name recognised after lower-casing"""
     prog = world.lib
     ed = world.run("fn:tftpd::packet::Packet::deserialize")
-    pushes = [e for e in ed.events if base_name(e) == "std::vec::Vec::push"]
+    # options enter the list through Vec::push(option) or through Vec::extend(<Option<TransferOption>>) (Some(option) appends it)
+    pushes = [e for e in ed.events if base_name(e) == "std::vec::Vec::push" or
+              (base_name(e).endswith("std::iter::Extend<T>>::extend") and len(e.args) > 1 and isinstance(e.args[1], tuple) and e.args[1][0] == "agg"
+               and e.args[1][1].get(("$discr",)) is not None)]
     a.need(len(set(e.node for e in pushes)), 2, "option pushes in the decoder (requests, OACK)")
     for e in pushes:
         v = e.args[1] if len(e.args) > 1 else None
         opt = v[1].get((0, "$discr")) if isinstance(v, tuple) and v[0] == "agg" else None
+        if opt is None and isinstance(v, tuple) and v[0] == "agg" and v[1].get(("$discr",)) is not None:
+            if v[1][("$discr",)][1] == (0, ()):
+                continue   # extend(None): nothing is appended
+            opt = v[1].get((("v", 1), 0, 0, "$discr"))
         a.ob(opt is not None and opt[0] == "i" and not opt[1][1], "unrecognised-option-kept in %s" % short(e.body),
              "the decoder keeps an option whose name was not recognised", e.loc, sample={"pushed option": "recognised kind"})
     froms = [e for e in ed.events if e.inlined and base_name(e).endswith("as std::str::FromStr>::from_str") and "OptionType" in base_name(e)]
